@@ -351,7 +351,7 @@ func check(c Case) (o pbt.Outcome) {
 				shape = "|shape:allOf+additionalProperties"
 			}
 			if strings.Contains(msg, "is required") && requiredOnEmptyObject(v, msg) {
-				shape += "|value:empty-object"
+				shape = "|value:empty-object"
 			}
 			o.Fail(fmt.Sprintf("C02|gen-rejects-valid|%s|%s%s", stage, errClass(msg), shape), "definition %s: generated model rejects a document valid for the reference validator: %s: %s\n  doc: %s\n  schema: %s", in.Def, stage, msg, in.Doc, specgen.JSONBytes(s))
 		}
